@@ -37,3 +37,26 @@ theorem and_F8 (x : Nat) : x &&& 0xF8 = (x / 8 % 32) * 8 := and_mid_mask x 5 3
 theorem and_80 (x : Nat) : x &&& 0x80 = (x / 128 % 2) * 128 := and_mid_mask x 1 7
 
 end StVerif.Bits
+
+namespace StVerif.Bits
+
+/-- `a ||| b = a + b` when `a` is a multiple of `2^i` and `b < 2^i` -/
+theorem or_eq_add_of_dvd (a b i : Nat) (ha : a % 2^i = 0) (hb : b < 2^i) : a ||| b = a + b := by
+  have : a = (a / 2^i) * 2^i := by
+    have := Nat.div_add_mod a (2^i); rw [ha] at this; rw [Nat.mul_comm]; omega
+  rw [this, or_mul_eq_add _ _ i hb]
+
+theorem or_C0 (x : Nat) (h : x < 32) : 0xC0 ||| x = 0xC0 + x := or_eq_add_of_dvd 0xC0 x 5 (by decide) h
+theorem or_80 (x : Nat) (h : x < 64) : 0x80 ||| x = 0x80 + x := or_eq_add_of_dvd 0x80 x 6 (by decide) h
+theorem or_E0 (x : Nat) (h : x < 16) : 0xE0 ||| x = 0xE0 + x := or_eq_add_of_dvd 0xE0 x 4 (by decide) h
+theorem or_F0 (x : Nat) (h : x < 8) : 0xF0 ||| x = 0xF0 + x := or_eq_add_of_dvd 0xF0 x 3 (by decide) h
+theorem or_D800 (x : Nat) (h : x < 1024) : 0xD800 ||| x = 0xD800 + x := or_eq_add_of_dvd 0xD800 x 10 (by decide) h
+theorem or_DC00 (x : Nat) (h : x < 1024) : 0xDC00 ||| x = 0xDC00 + x := or_eq_add_of_dvd 0xDC00 x 10 (by decide) h
+
+/-- bit 22 of a value below 2^22 is clear -/
+theorem and_bit22_of_lt (v : Nat) (h : v < 0x400000) : v &&& 0x400000 = 0 := by
+  have := and_mid_mask v 1 22
+  simp only [Nat.reducePow, Nat.reduceSub, Nat.one_mul] at this
+  rw [this]; omega
+
+end StVerif.Bits
